@@ -10,6 +10,7 @@ use crate::{
 pub enum Job {
     W { cfg: Arc<WCfg>, bound: u32, big: bool },
     P { cfg: engine_p::PCfg, bound: u32 },
+    B { cfg: crate::engine_b::BCfg, bound: u32 },
     I { name: &'static str, run: fn(bool, usize) -> engine_i::Report },
     Other { name: &'static str, run: fn(bool, usize, &'static str) -> crate::OtherResult },
 }
@@ -19,6 +20,7 @@ impl Job {
         match self {
             Job::W { cfg, .. } => cfg.name.clone(),
             Job::P { cfg, .. } => cfg.name.clone(),
+            Job::B { cfg, .. } => cfg.name.clone(),
             Job::I { name, .. } => name.to_string(),
             Job::Other { name, .. } => name.to_string(),
         }
@@ -170,6 +172,22 @@ pub fn jobs(id: &str, thorough: bool) -> Vec<Job> {
             for c in scen::s_passthrough(thorough) {
                 v.push(w(c, &["C13"], if thorough { 1 } else { 0 }, false));
             }
+        }
+        "C14" => {
+            for c in scen::s_isolation(thorough) {
+                v.push(w(c, &["C14"], if thorough { 3 } else { 2 }, false));
+            }
+        }
+        "C20" => {
+            for (cfg, bound) in crate::engine_b::configs(thorough) {
+                v.push(Job::B { cfg, bound });
+            }
+        }
+        "C17" => {
+            v.push(Job::Other {
+                name: "F/plain",
+                run: crate::engine_f::run,
+            });
         }
         "C15" => {
             for c in engine_p::configs_wait(if thorough { 3 } else { 2 }, false) {
